@@ -391,6 +391,8 @@ class CInterp:
         r = self._sse_builtin(name, a)
         if r is not NotImplemented:
             return r
+        if name == "make_pair" and len(a) == 2:
+            return StructObj("pair", first=a[0], second=a[1])
         if name == "strlen" and isinstance(a[0], str):
             return len(a[0])
         if name in ("cbrt", "cbrtf"):
@@ -752,6 +754,22 @@ class CInterp:
             return False
         if k == "ArraySubscriptExpr":
             return False
+        # SOUNDNESS: the merge joins the *variables* of the two branches; a store through anything else (a struct field, `this->x`,
+        # an fvec4 member) would survive the branch that does not execute it, so such branches are explored as separate paths
+        assign_ops = ("=", "+=", "-=", "*=", "/=", "%=", "&=", "|=", "^=", "<<=", ">>=")
+        opname = ""
+        if k == "CXXOperatorCallExpr" and n.get("inner"):
+            cal = n["inner"][0]
+            while cal.get("kind") in ("ParenExpr", "ImplicitCastExpr") and cal.get("inner"):
+                cal = cal["inner"][0]
+            opname = cal.get("referencedDecl", {}).get("name", "")
+        if (k in ("BinaryOperator", "CompoundAssignOperator") and n.get("opcode") in assign_ops) or \
+                (opname.startswith("operator") and opname[len("operator"):] in assign_ops):
+            tgt = n["inner"][0] if k != "CXXOperatorCallExpr" else n["inner"][1]
+            while tgt.get("kind") in ("ParenExpr", "ImplicitCastExpr") and tgt.get("inner"):
+                tgt = tgt["inner"][0]
+            if tgt.get("kind") != "DeclRefExpr":
+                return False
         return all(self._mergeable(c) for c in n.get("inner", []))
 
     def _merge_if(self, c, inner, env):
@@ -1160,7 +1178,7 @@ class CInterp:
             return FV(v.v)
         return v
 
-    def construct_record(self, rname, args):
+    def construct_record(self, rname, args, preset=None):
         rec = self.records[rname]
         if len(args) == 1 and isinstance(args[0], StructObj) and getattr(args[0], "record", None) == rname:
             return self.copy_value(args[0])  # copy construction
@@ -1175,6 +1193,12 @@ class CInterp:
             if f.get("kind") == "FieldDecl":
                 fq = f.get("type", {}).get("qualType", "")
                 obj.fields[f["name"]] = StdVector() if ("deque" in fq or "vector" in fq) else None
+                if "[" in fq and fq.rstrip().endswith("]") and "(" not in fq:
+                    size = int(fq[fq.index("[") + 1: fq.index("]")])  # member array: a small local region, elements unset
+                    r = Region(f"{rname}.{f['name']}", "real" if ("float" in fq or "double" in fq) else "int", size)
+                    r.local = [None] * size
+                    obj.fields[f["name"]] = Ptr(r, 0)
+        obj.fields.update(preset or {})  # abstract views of container fields, supplied by the contract
         env = {"#names": {}, "#this": obj}
         params = [c for c in cd.get("inner", []) if c.get("kind") == "ParmVarDecl"]
         for p_, a in zip(params, args):
@@ -1184,6 +1208,8 @@ class CInterp:
             fld = ini.get("anyInit", {}).get("name")
             if fld is None:
                 raise Unsupported("base-class initialiser")
+            if fld in (preset or {}):
+                continue  # the contract's abstract view stands for this (default-constructed) container
             obj.fields[fld] = self.copy_value(self.rv(self.expr(ini["inner"][0], env)))
         body = [c for c in cd.get("inner", []) if c.get("kind") == "CompoundStmt"]
         if body:
